@@ -3,6 +3,7 @@
 //! `PRE_*` hooks of `lasso::verif` and writes an event trace (`run_file`), or free-running
 //! with monitors (`stress`).
 
+use crate::talloc;
 use crate::{hex, install_silent_panic_hook, push_hex, set_dyn_cap, unhex_str, DynKey};
 use lasso::verif::{self, site, ArenaAudit};
 use lasso::{
@@ -224,7 +225,10 @@ fn post_checks<K: CKey, S: CHasher>(
             None => found.push(format!("call {tid}.{idx} returned the unrepresentable key {k}")),
             Some(key) => match rodeo.try_resolve(&key) {
                 Some(t) if t == s => {
-                    SEEN_PTRS.lock().unwrap_or_else(|e| e.into_inner()).push((*k, t.as_ptr() as usize, t.len(), tid, idx));
+                    // a process-global list: not something the case has to release
+                    talloc::untracked(|| {
+                        SEEN_PTRS.lock().unwrap_or_else(|e| e.into_inner()).push((*k, t.as_ptr() as usize, t.len(), tid, idx));
+                    });
                 }
                 Some(t) => found.push(format!(
                     "call {tid}.{idx} returned K{k} for {} but K{k} resolves to {} right afterwards",
@@ -267,6 +271,11 @@ fn post_checks<K: CKey, S: CHasher>(
 static LEAKS: Mutex<Option<HashMap<(String, usize), &'static str>>> = Mutex::new(None);
 
 fn leaked(content: &str, ordinal: usize) -> &'static str {
+    // intentional: the `'static` copies and their cache live as long as the process
+    talloc::untracked(|| leaked_inner(content, ordinal))
+}
+
+fn leaked_inner(content: &str, ordinal: usize) -> &'static str {
     let mut cache = LEAKS.lock().unwrap_or_else(|e| e.into_inner());
     let cache = cache.get_or_insert_with(HashMap::new);
     *cache.entry((content.to_string(), ordinal)).or_insert_with(|| {
@@ -374,11 +383,15 @@ impl<'a> Sink<'a> {
         self.total += 1;
         let n = self.counts.entry(prop).or_insert(0);
         *n += 1;
-        if *n <= PER_PROP {
-            let _ = writeln!(self.buffer, "M {} {} {}{}", self.id, prop, msg.as_ref(), self.context);
-        } else if *n == PER_PROP + 1 {
-            let _ = writeln!(self.buffer, "M {} {} (further findings suppressed)", self.id, prop);
-        }
+        let n = *n;
+        // the buffer outlives the round in stress mode
+        talloc::untracked(|| {
+            if n <= PER_PROP {
+                let _ = writeln!(self.buffer, "M {} {} {}{}", self.id, prop, msg.as_ref(), self.context);
+            } else if n == PER_PROP + 1 {
+                let _ = writeln!(self.buffer, "M {} {} (further findings suppressed)", self.id, prop);
+            }
+        });
     }
 }
 
@@ -668,6 +681,11 @@ fn observer(s: u16, a: usize, b: usize) {
     if tid == NO_WORKER || MUTED.with(|m| m.get()) {
         return;
     }
+    // the trace is the harness's own bookkeeping in the middle of lasso's calls
+    talloc::untracked(|| observe(tid, s, a, b));
+}
+
+fn observe(tid: usize, s: u16, a: usize, b: usize) {
     let mut g = ctl();
     g.trace.push(Rec::Ev { tid, site: s, a, b });
     g.progress += 1;
@@ -1006,7 +1024,43 @@ fn abort_case(out: &mut Out, id: &str, header: &str, g: MutexGuard<'static, Ctl>
     std::process::exit(EXIT_ABORTED);
 }
 
+/// Runs one case inside a scope of the allocation-discipline monitor (C04, `talloc`): all
+/// threads are tracked from before the interner is created until it has been dropped; whatever
+/// was allocated in between and is still live afterwards leaked.
 fn run_case<K: CKey>(
+    case: &Case,
+    keycap: u64,
+    dyn_cap: Option<usize>,
+    opts: &RunOpts,
+    out: &mut Out,
+) -> io::Result<()> {
+    let snapshot = talloc::scope_begin();
+    talloc::set_all_threads(true);
+    let result = run_case_inner::<K>(case, keycap, dyn_cap, opts, out);
+    talloc::set_all_threads(false);
+    let report = talloc::scope_end(snapshot);
+    write_alloc_report(&mut out.mon, &case.id, &report, "the interner and the workers of the case were dropped")?;
+    if !report.is_clean() || report.overflow {
+        out.flush()?;
+    }
+    result
+}
+
+/// The findings of a `talloc` scope as monitor lines
+fn write_alloc_report(mon: &mut impl Write, id: &str, report: &talloc::Report, when: &str) -> io::Result<usize> {
+    let mut lines = 0usize;
+    if report.overflow {
+        writeln!(mon, "M {id} MON internal: the allocation table overflowed, the allocation discipline (C04) is no longer checked")?;
+        lines += 1;
+    }
+    for message in report.messages(when) {
+        writeln!(mon, "M {id} C04 {message}")?;
+        lines += 1;
+    }
+    Ok(lines)
+}
+
+fn run_case_inner<K: CKey>(
     case: &Case,
     keycap: u64,
     dyn_cap: Option<usize>,
@@ -1263,6 +1317,13 @@ fn run_case<K: CKey>(
     *PROBE.lock().unwrap_or_else(|e| e.into_inner()) = None;
     // the interner is dropped here; nothing observes it any more
     let _ = catch_unwind(AssertUnwindSafe(move || drop(rodeo)));
+    // the process-global bookkeeping of the case is released with it
+    {
+        let mut g = ctl();
+        g.workers = Vec::new();
+        g.trace = Vec::new();
+    }
+    *SEEN_PTRS.lock().unwrap_or_else(|e| e.into_inner()) = Vec::new();
     Ok(())
 }
 
@@ -1413,6 +1474,33 @@ fn keycap_of(key: KeySel) -> u64 {
     }
 }
 
+/// Makes the libraries allocate what they keep for the rest of the process before the first
+/// `talloc` scope is opened: the main thread's handle, the panic machinery, and above all
+/// parking_lot's global hash table of parked threads (dashmap's shard locks park through it).
+/// That table is created when a thread first parks and is replaced by a larger one -- the old
+/// one is leaked on purpose -- whenever more threads than ever before have parked and are alive;
+/// here `max_threads` threads register at once, so it never grows again during the cases.
+fn warm_up(max_threads: usize) {
+    let _ = std::thread::current();
+    let n = max_threads + 8;
+    let barrier = Barrier::new(n);
+    std::thread::scope(|s| {
+        for _ in 0..n {
+            s.spawn(|| {
+                let key = &barrier as *const Barrier as usize;
+                // Safety: `validate` answers false, so nothing is queued and nobody sleeps; the
+                // call only makes this thread register with parking_lot (and size the table)
+                let _ = unsafe {
+                    parking_lot_core::park(key, || false, || {}, |_, _| {}, parking_lot_core::DEFAULT_PARK_TOKEN, None)
+                };
+                // all registrations are alive at the same time
+                barrier.wait();
+            });
+        }
+    });
+    let _ = catch_unwind(|| panic!("warm-up"));
+}
+
 /// `concdriver run <cases> <traces>`: returns the process exit status
 pub fn run_file(cases_path: &str, traces_path: &str, opts: &RunOpts) -> io::Result<i32> {
     let cases = std::fs::read_to_string(cases_path)?;
@@ -1430,6 +1518,8 @@ pub fn run_file(cases_path: &str, traces_path: &str, opts: &RunOpts) -> io::Resu
     };
     install_silent_panic_hook();
     verif::set_observer(Some(observer));
+    // (a case has one thread per `;`-separated program)
+    warm_up(cases.lines().map(|l| l.matches(';').count()).max().unwrap_or(0).max(16));
     let mut skipping = opts.skip_to.is_some();
     for line in cases.lines() {
         let line = line.trim_end_matches('\r');
@@ -1542,12 +1632,34 @@ struct RoundResult {
     findings: usize,
 }
 
+/// One round inside a scope of the allocation-discipline monitor (C04, `talloc`)
 fn stress_round<K: CKey, S: CHasher>(
     round: &Round,
     hasher: S,
     threads: usize,
     mon: &mut String,
 ) -> RoundResult {
+    let snapshot = talloc::scope_begin();
+    talloc::set_all_threads(true);
+    let mut result = stress_round_inner::<K, S>(round, hasher, threads, mon);
+    talloc::set_all_threads(false);
+    let report = talloc::scope_end(snapshot);
+    let mut lines: Vec<u8> = Vec::new();
+    let when = "the interner and the workers of the round were dropped";
+    result.findings += write_alloc_report(&mut lines, &round.id, &report, when).unwrap_or(0);
+    for line in String::from_utf8_lossy(&lines).lines() {
+        let _ = writeln!(mon, "{line} [{}]", round.context);
+    }
+    result
+}
+
+fn stress_round_inner<K: CKey, S: CHasher>(
+    round: &Round,
+    hasher: S,
+    threads: usize,
+    mon: &mut String,
+) -> RoundResult {
+    SEEN_PTRS.lock().unwrap_or_else(|e| e.into_inner()).clear();
     if let Some(n) = round.dyn_cap {
         set_dyn_cap(n);
     }
@@ -1733,6 +1845,7 @@ pub fn stress(seconds: u64, threads: usize, seed: u64, monfile: &str) -> io::Res
     install_silent_panic_hook();
     verif::set_observer(None);
     let threads = threads.max(1);
+    warm_up(threads + 2);
     let deadline = Instant::now() + Duration::from_secs(seconds);
     let mut rounds = 0u64;
     let mut violations = 0usize;
